@@ -427,14 +427,14 @@ Proof.
   - cbn [Nat.add destroy_down]. rewrite IH. f_equal. lia.
 Qed.
 
-Lemma clear_loop_eq n : forall b len v L, wfv v -> Z.of_nat n = b + 1 -> 0 <= len <= bucket_cap (v_shift v) b ->
+Lemma clear_loop_eq n : forall b len v L, wfv v -> 0 <= b -> Z.of_nat n = b + 1 -> 0 <= len <= bucket_cap (v_shift v) b ->
   (forall k, 0 <= k <= b -> is_alloc (v_bufs v) k = true) ->
   clear_loop n b len (bucket_cap (v_shift v) b) (v, L) =
   destroy_down (Z.to_nat (bucket_start (v_shift v) b + len)) (bucket_start (v_shift v) b + len) (v, L).
 Proof.
-  induction n as [|n IH]; intros b len v L W Hn Hlen A; [lia|].
+  induction n as [|n IH]; intros b len v L W Hb0 Hn Hlen A; [lia|].
   cbn [clear_loop fst snd]. rewrite (A b) by lia.
-  destruct W as [Hs Wf] eqn:EW. clear EW. assert (W : wfv v) by (split; assumption).
+  pose proof W as [Hs Wf].
   rewrite (destroy_down_bs_eq (Z.to_nat len) b len (v, L)) by (cbn [fst]; auto; lia). cbn [fst].
   destruct n as [|n].
   - assert (b = 0) by lia. subst b. cbn [clear_loop]. reflexivity.
@@ -457,7 +457,7 @@ Proof.
     destruct (destroy_down (Z.to_nat len) (bucket_start (v_shift v) b + len) (v, L)) as [v1 L1] eqn:ED. cbn [fst snd] in *.
     destruct S2 as (Sh & Sz & NB & AL & WW).
     rewrite Ec. rewrite <- Sh.
-    rewrite (IH (b - 1) (bucket_cap (v_shift v1) (b - 1)) v1 L1 (WW W) ltac:(lia) ltac:(rewrite Sh; lia)
+    rewrite (IH (b - 1) (bucket_cap (v_shift v1) (b - 1)) v1 L1 (WW W) ltac:(lia) ltac:(lia) ltac:(rewrite Sh; lia)
                ltac:(intros k Hk; rewrite AL; apply A; lia)).
     rewrite Sh.
     replace (bucket_start (v_shift v) (b - 1) + bucket_cap (v_shift v) (b - 1)) with (bucket_start (v_shift v) b)
@@ -474,7 +474,7 @@ Proof.
   pose proof (vi_wf _ _ I) as W. pose proof (vi_size _ _ I) as Sz.
   pose proof (bsi_facts (v_shift v) (v_size v) ltac:(apply W) Sz) as (B & S & C & E).
   rewrite C. rewrite (clear_loop_eq (Z.to_nat (bkt (v_shift v) (v_size v) + 1)) (bkt (v_shift v) (v_size v)) (sub (v_shift v) (v_size v)) v L W
-            ltac:(lia) ltac:(lia) ltac:(destruct (vi_ainv _ _ I) as [A _]; exact A)).
+            ltac:(lia) ltac:(lia) ltac:(lia) ltac:(destruct (vi_ainv _ _ I) as [A _]; exact A)).
   rewrite E. reflexivity.
 Qed.
 
@@ -515,7 +515,7 @@ Qed.
 Lemma release_bucket_spec b v L : wfv v -> 0 <= b ->
   let r := release_bucket b (v, L) in
   wfv (fst r) /\ v_shift (fst r) = v_shift v /\ v_size (fst r) = v_size v /\ length (v_bufs (fst r)) = length (v_bufs v) /\
-  (forall k, k <> b -> get_buf (v_bufs (fst r)) k = get_buf (v_bufs v) k) /\
+  (forall k, k <> b -> get_buf (v_bufs (fst r)) k = get_buf (v_bufs v) k) /\ get_buf (v_bufs (fst r)) b = None /\
   cl_bad (snd r) = cl_bad L /\ cl_cnt (snd r) = cl_cnt L /\ cl_errs (snd r) = cl_errs L /\
   ((forall j, bucket_start (v_shift v) b <= j -> live_at v j = false) -> snd r = L).
 Proof.
@@ -527,6 +527,9 @@ Proof.
     split; [reflexivity|]. split; [reflexivity|]. split; [simpl; apply length_set_buf|].
     split.
     { intros k Hk. simpl. rewrite get_buf_set_buf. replace (b =? k) with false by lia. reflexivity. }
+    split.
+    { simpl. rewrite get_buf_set_buf. pose proof (get_buf_some_range _ _ _ G) as R. rewrite Z.eqb_refl.
+      replace (0 <=? b) with true by lia. replace (b <? Z.of_nat (length (v_bufs v))) with true by lia. reflexivity. }
     split; [reflexivity|]. split; [reflexivity|]. split; [reflexivity|].
     intros NL.
     assert (Z1 : forall c, In c l -> is_live (c_st c) = false).
@@ -535,7 +538,7 @@ Proof.
     rewrite (count_state_zero (lstate_eqb MovedFrom) l).
     + apply cl_grave_0.
     + intros c Hc. specialize (Z1 c Hc). destruct (c_st c); try reflexivity; discriminate.
-  - repeat split; auto.
+  - split; [exact W|]. repeat split; auto.
 Qed.
 
 Lemma get_cell_same_buf v v' j : v_shift v' = v_shift v -> get_buf (v_bufs v') (bkt (v_shift v) j) = get_buf (v_bufs v) (bkt (v_shift v) j) ->
@@ -546,28 +549,116 @@ Lemma shrink_loop_spec n : forall b v L, wfv v -> 2 <= b ->
   let r := shrink_loop n b (v, L) in
   wfv (fst r) /\ v_shift (fst r) = v_shift v /\ v_size (fst r) = v_size v /\ length (v_bufs (fst r)) = length (v_bufs v) /\
   (forall k, k < b -> get_buf (v_bufs (fst r)) k = get_buf (v_bufs v) k) /\
+  (forall k, get_buf (v_bufs (fst r)) k = get_buf (v_bufs v) k \/ get_buf (v_bufs (fst r)) k = None) /\
   cl_bad (snd r) = cl_bad L /\ cl_cnt (snd r) = cl_cnt L /\ cl_errs (snd r) = cl_errs L /\
   ((forall j, bucket_start (v_shift v) b <= j -> live_at v j = false) -> snd r = L).
 Proof.
   induction n as [|n IH]; intros b v L W Hb; cbn [shrink_loop fst snd].
-  - repeat split; auto.
-  - destruct (is_alloc (v_bufs v) b) eqn:E; [|cbn [fst snd]; repeat split; auto].
+  - split; [exact W|]. repeat split; auto.
+  - destruct (is_alloc (v_bufs v) b) eqn:E; [|cbn [fst snd]; split; [exact W|]; repeat split; auto].
     pose proof (release_bucket_spec b v L W ltac:(lia)) as R. cbv zeta in R.
     destruct (release_bucket b (v, L)) as [v1 L1]. cbn [fst snd] in R.
-    destruct R as (W1 & Sh1 & Sz1 & NB1 & G1 & B1 & C1 & E1 & N1).
+    destruct R as (W1 & Sh1 & Sz1 & NB1 & G1 & GN & B1 & C1 & E1 & N1).
     specialize (IH (b + 1) v1 L1 W1 ltac:(lia)). cbv zeta in IH.
-    destruct IH as (W2 & Sh2 & Sz2 & NB2 & G2 & B2 & C2 & E2 & N2).
+    destruct IH as (W2 & Sh2 & Sz2 & NB2 & G2 & O2 & B2 & C2 & E2 & N2).
     split; [exact W2|]. split; [congruence|]. split; [congruence|]. split; [congruence|].
     split; [intros k Hk; rewrite G2 by lia; apply G1; lia|].
+    split.
+    { intros k. destruct (O2 k) as [X|X]; [|right; exact X]. rewrite X.
+      destruct (Z.eq_dec k b) as [->|Nk]; [right; exact GN | left; apply G1; exact Nk]. }
     split; [congruence|]. split; [congruence|]. split; [congruence|].
     intros NL. rewrite N2; [apply N1; exact NL|].
     intros j Hj. unfold live_at, st_at.
     destruct (Z.eq_dec (bkt (v_shift v) j) b) as [Eb|Nb].
     + (* the cell was in the released buffer: it reads as raw now *)
       unfold get_cell, get_bs. rewrite Sh1, bsi_eta, Eb.
-      assert (X : get_buf (v_bufs v1) b = None).
-      { clear - E G1 W. (* released *) revert G1. intros _. exact (ltac:(idtac) : True -> _) I. }
-      rewrite X. reflexivity.
+      rewrite GN. reflexivity.
     + rewrite (get_cell_same_buf v v1 j Sh1 (G1 _ Nb)). apply (NL j).
       rewrite Sh1 in Hj. pose proof (bucket_start_mono (v_shift v) b (b + 1) ltac:(apply W) ltac:(lia)). lia.
+Qed.
+
+Lemma live_at_same_or_none v v' j : v_shift v' = v_shift v ->
+  (forall k, get_buf (v_bufs v') k = get_buf (v_bufs v) k \/ get_buf (v_bufs v') k = None) ->
+  live_at v j = false -> live_at v' j = false.
+Proof.
+  intros Sh O H. destruct (O (bkt (v_shift v) j)) as [X|X].
+  - unfold live_at, st_at. rewrite (get_cell_same_buf v v' j Sh X). exact H.
+  - unfold live_at, st_at, get_cell, get_bs. rewrite Sh, bsi_eta, X. reflexivity.
+Qed.
+
+Lemma shrink_to_fit_spec tr v L : vinv tr v ->
+  let r := shrink_to_fit tr (v, L) in
+  vinv tr (fst r) /\ abs (fst r) = abs v /\ v_size (fst r) = v_size v /\ v_shift (fst r) = v_shift v /\
+  cl_bad (snd r) = cl_bad L /\ (clean v -> snd r = L /\ clean (fst r)).
+Proof.
+  intros I. unfold shrink_to_fit, vl_size. cbn [fst]. rewrite bsi_eta.
+  pose proof (vi_wf _ _ I) as W. pose proof (vi_size _ _ I) as Sz.
+  pose proof (bsi_facts (v_shift v) (v_size v) ltac:(apply W) Sz) as (B & S & C & E).
+  set (start := Z.max 2 (bkt (v_shift v) (v_size v) + 2)).
+  pose proof (shrink_loop_spec (Z.to_nat (max_buffers tr - start)) start v L W ltac:(lia)) as R. cbv zeta in R.
+  destruct (shrink_loop (Z.to_nat (max_buffers tr - start)) start (v, L)) as [v1 L1]. cbn [fst snd] in *.
+  destruct R as (W1 & Sh1 & Sz1 & NB1 & G1 & O1 & B1 & C1 & E1 & N1).
+  assert (AL : forall k, k < start -> is_alloc (v_bufs v1) k = is_alloc (v_bufs v) k) by (intros k Hk; unfold is_alloc; rewrite G1 by exact Hk; reflexivity).
+  assert (CS : forall j, 0 <= j <= v_size v -> get_cell v1 j = get_cell v j).
+  { intros j Hj. apply get_cell_same_buf; [exact Sh1|]. apply G1.
+    pose proof (bkt_mono (v_shift v) j (v_size v) ltac:(apply W) Hj). lia. }
+  split.
+  { destruct (vi_base _ _ I) as [B0 B1']. destruct (vi_ainv _ _ I) as [A A'].
+    constructor; auto; try lia.
+    - split; rewrite AL by lia; assumption.
+    - rewrite Sh1, Sz1. split.
+      + intros k Hk. rewrite AL by lia. apply A. exact Hk.
+      + intros H. rewrite AL by lia. apply A'. exact H.
+    - rewrite NB1. apply (vi_nb _ _ I). }
+  split.
+  { apply abs_ext; [lia | rewrite zlen_abs by lia; lia|]. intros j Hj. rewrite znth_abs by lia. unfold tag_at. rewrite CS by lia. reflexivity. }
+  split; [exact Sz1|]. split; [exact Sh1|]. split; [exact B1|].
+  intros [CA CB]. split.
+  - apply N1. intros j Hj. apply CB.
+    pose proof (bucket_start_mono (v_shift v) (bkt (v_shift v) (v_size v) + 1) start ltac:(apply W) ltac:(lia)) as M.
+    rewrite bucket_start_next in M by (try apply W; lia). lia.
+  - split.
+    + intros j Hj. unfold st_at. rewrite CS by lia. apply CA. lia.
+    + intros j Hj. apply (live_at_same_or_none v v1 j Sh1 O1). apply CB. lia.
+Qed.
+
+(* net effect on the ledger: no misuse, nothing lost, constructions - destructions changed by d *)
+Definition lnet (L L' : cled) (d : Z) : Prop :=
+  cl_errs L' = cl_errs L /\ cl_glive L' = cl_glive L /\ cl_gmoved L' = cl_gmoved L /\ cl_bad L' = cl_bad L /\
+  n_ctor_c (cl_cnt L') - c_dtor (cl_cnt L') = n_ctor_c (cl_cnt L) - c_dtor (cl_cnt L) + d.
+Lemma lnet_of_ldelta L L' dc dd : ldelta L L' dc dd -> lnet L L' (dc - dd).
+Proof. unfold ldelta, lnet. intros (A & B & C & D & E & F). repeat split; auto. lia. Qed.
+Lemma lnet_refl L : lnet L L 0.
+Proof. unfold lnet; repeat split; lia. Qed.
+Lemma lnet_trans L1 L2 L3 a b : lnet L1 L2 a -> lnet L2 L3 b -> lnet L1 L3 (a + b).
+Proof. unfold lnet. intros (A1 & A2 & A3 & A4 & A5) (B1 & B2 & B3 & B4 & B5). repeat split; try congruence. lia. Qed.
+Lemma life_ok_lnet v L v' L' : life_ok v L v' L' -> clean v -> clean v' /\ lnet L L' (v_size v' - v_size v).
+Proof. intros H C. destruct (H C) as (C' & dc & dd & D & E). split; [exact C'|]. rewrite <- E. apply lnet_of_ldelta. exact D. Qed.
+
+(* ~ConcurrentVector *)
+Lemma destruct_vec_spec tr v L : vinv tr v ->
+  cl_bad (destruct_vec tr (v, L)) = cl_bad L /\ (clean v -> lnet L (destruct_vec tr (v, L)) (- v_size v)).
+Proof.
+  intros I. unfold destruct_vec.
+  pose proof (clear_spec tr v L I) as C. cbv zeta in C. destruct (clear (v, L)) as [v1 L1]. cbn [fst snd] in C.
+  destruct C as (I1 & _ & Sz1 & B1 & Sh1 & LO1).
+  pose proof (shrink_to_fit_spec tr v1 L1 I1) as S. cbv zeta in S. destruct (shrink_to_fit tr (v1, L1)) as [v2 L2]. cbn [fst snd] in S.
+  destruct S as (I2 & _ & Sz2 & Sh2 & B2 & CL2).
+  pose proof (release_bucket_spec 0 v2 L2 (vi_wf _ _ I2) ltac:(lia)) as R0. cbv zeta in R0.
+  destruct (release_bucket 0 (v2, L2)) as [v3 L3]. cbn [fst snd] in R0.
+  destruct R0 as (W3 & Sh3 & Sz3 & NB3 & G3 & GN3 & B3 & C3 & E3 & N3).
+  pose proof (release_bucket_spec 1 v3 L3 W3 ltac:(lia)) as R1. cbv zeta in R1.
+  destruct (release_bucket 1 (v3, L3)) as [v4 L4]. cbn [fst snd] in R1.
+  destruct R1 as (W4 & Sh4 & Sz4 & NB4 & G4 & GN4 & B4 & C4 & E4 & N4).
+  split; [congruence|].
+  intros CV. destruct (life_ok_lnet _ _ _ _ LO1 CV) as (CV1 & LN1).
+  destruct (CL2 CV1) as (EL2 & CV2). subst L2.
+  assert (NL2 : forall j, 0 <= j -> live_at v2 j = false) by (intros j Hj; apply CV2; lia).
+  assert (EL3 : L3 = L1). { apply N3. intros j Hj. apply NL2. unfold bucket_start in Hj. simpl in Hj. exact Hj. }
+  subst L3.
+  assert (EL4 : L4 = L1).
+  { apply N4. intros j Hj. apply (live_at_same_or_none v2 v3 j Sh3).
+    - intros k. destruct (Z.eq_dec k 0) as [->|Nk]; [right; exact GN3 | left; apply G3; exact Nk].
+    - apply NL2. pose proof (bucket_start_mono (v_shift v3) 0 1 ltac:(apply W3) ltac:(lia)) as M. unfold bucket_start at 1 in M. simpl in M. lia. }
+  subst L4. replace (- v_size v) with (v_size v1 - v_size v) by lia. exact LN1.
 Qed.
